@@ -145,6 +145,16 @@ def c07(ctx):
                         ev = drv.run_program(stream, cuts, prog, body, source=source, cfgkw=cfgkw, follower=fol)
                         traces.append({"blen": blen, "nls": nls, "ev": ev})
                         metas.append(meta)
+    # uploads of many megabytes that the application leaves (almost) unread: the parser gets past them all the same
+    for framing in ("len", "chunked"):
+        for prog in ([], [("read", 10)]):
+            blen = 17 * 1024 * 1024 + 5
+            body = bytes(range(256)) * (blen // 256) + bytes(range(blen % 256))
+            stream = drv.frame(body, framing, [blen]) + drv.FOLLOWER
+            ev = drv.run_program(stream, list(range(65536, len(stream), 65536)), prog, body, source="sock")
+            traces.append({"blen": blen, "nls": [], "ev": [e for e in ev if e["e"] == "stop"] if not prog else ev})
+            metas.append({"kind": "real", "blen": blen, "nl": "none", "framing": framing, "layout": [blen], "prog": prog, "ncuts": 0,
+                          "cuts": [], "trailers": False, "small_limits": False, "method": "POST", "unread_upload": True})
     if ojobs:
         import subprocess
         import sys
